@@ -26,6 +26,8 @@ Check1(r) ==
   /\ Clause(r.id, "loaded", r.loaded = [q \in 1..Len(written) |-> written[q].w])
   /\ Clause(r.id, "LoadedIsWindows", \A q \in 1..Len(r.loaded) :
                      r.loaded[q] = Window(r.n, r.spikes[q], r.nsw, ChansOf(q)))
+  /\ Clause(r.id, "Lookup", \A e \in SeqSet(r.lookups) : \A q \in 1..Len(e[2]) :
+                     e[2][q] = LookupOne(ChansOf(q), Window(r.n, r.spikes[q], r.nsw, ChansOf(q)), e[1], r.nsw))
   /\ Clause(r.id, "ExtractIsWindow", \A q \in 1..Len(r.extract) :
                      r.extract[q] = Window(r.n, r.spikes[q], r.nsw, ChansOf(q)))
 Step == pc # "done" /\ Next /\ i' = i
